@@ -1,6 +1,8 @@
 package main
 
 import (
+	"os/exec"
+	"sync"
 	"encoding/json"
 	"go/types"
 	"reflect"
@@ -123,8 +125,35 @@ func cmdCheck(args []string) int {
 	keep := fs.Bool("keep", false, "keep SMT files")
 	verbose := fs.Bool("v", false, "verbose")
 	noEvidence := fs.Bool("no-evidence", false, "do not write the evidence file")
+	replayPath := fs.String("replay", "", "re-run the obligation (or bounded stand-in) recorded in this replay file against the current tree")
 	vacuity := fs.Bool("vacuity", false, "also check that the path condition of every discharged obligation is satisfiable (default in the thorough tier)")
 	fs.Parse(args)
+	boundedOnly := false
+	if *replayPath != "" {
+		data, err := os.ReadFile(*replayPath)
+		if err != nil {
+			fmt.Printf("cannot read replay file: %v\n", err)
+			return 2
+		}
+		var rec map[string]interface{}
+		json.Unmarshal(data, &rec)
+		name, _ := rec["obligation"].(string)
+		if name == "" {
+			fmt.Printf("replay file %s names no obligation\n", *replayPath)
+			return 2
+		}
+		if p, _ := rec["property"].(string); p != "" && *prop == "" {
+			*prop = p
+		}
+		*noEvidence = true
+		if strings.HasPrefix(name, "bounded:") {
+			boundedOnly = true
+			*only = "^$"
+		} else {
+			*only = "^" + regexp.QuoteMeta(name) + "$"
+		}
+		fmt.Printf("replaying %s\n", name)
+	}
 	t0 := time.Now()
 	seed := 0
 	if s := os.Getenv("VERIF_SEED"); s != "" {
@@ -372,9 +401,9 @@ func cmdCheck(args []string) int {
 	var samples []interface{}
 	var knownHit []string
 	exit := 0
-	os.MkdirAll(filepath.Join(*verifDir, "evidence", "replay"), 0o755)
+	os.MkdirAll(replayDirOf(*verifDir), 0o755)
 	if *prop != "" && *only == "" && *fnOnly == "" {
-		old, _ := filepath.Glob(filepath.Join(*verifDir, "evidence", "replay", *prop+"-*"))
+		old, _ := filepath.Glob(filepath.Join(replayDirOf(*verifDir), *prop+"-*"))
 		for _, f := range old {
 			os.Remove(f)
 		}
@@ -423,7 +452,7 @@ func cmdCheck(args []string) int {
 	// bounded stand-ins: real functions beyond the verifier's reach, explored exhaustively up to a stated bound.
 	// They are reported separately and never counted as proved.
 	var bounded []map[string]interface{}
-	if *prop != "" && *only == "" && *fnOnly == "" {
+	if *prop != "" && ((*only == "" && *fnOnly == "") || boundedOnly) {
 		var br int
 		bounded, br = runBounded(w, *verifDir, *prop, *tier, known)
 		if br > exit {
@@ -438,9 +467,13 @@ func cmdCheck(args []string) int {
 	for _, u := range undecided {
 		fmt.Printf("UNDECIDED: %s\n", u)
 	}
-	if nProof == 0 && len(undecided) == 0 {
+	if nProof == 0 && len(undecided) == 0 && !boundedOnly {
 		fmt.Printf("BROKEN-CHECK: no obligations generated for %s\n", *prop)
 		exit = 2
+	}
+	var corpus map[string]interface{}
+	if *tier == "thorough" && *prop != "" && *only == "" && *fnOnly == "" && os.Getenv("LBVC_REPLAY_DIR") == "" && exit == 0 {
+		corpus = mustFailCorpus(*verifDir, *prop)
 	}
 	wall := time.Since(t0).Seconds()
 	if !*noEvidence && *prop != "" && *only == "" && *fnOnly == "" {
@@ -467,7 +500,7 @@ func cmdCheck(args []string) int {
 				"known_findings_reported": knownHit, "undecided": undecided, "vacuous_paths": vacuous,
 				"explanation": fmt.Sprintf("%d proof obligations generated from the SSA of %d functions of /repo's working tree against contracts in *_verif.go; %d discharged (unsat), %d listed known findings, %d violations; %d cover (vacuity) queries", nProof, len(frs), nDis, len(knownHit), nViol, len(obls)-nProof),
 				"load_s": tLoad.Seconds(), "solve_s": tSolve.Seconds(), "solver_ms_total": solverMs,
-				"bounded_stand_ins": bounded,
+				"bounded_stand_ins": bounded, "must_fail_corpus": corpus,
 			},
 			"assumptions": append([]string{
 				"no goroutine interleaving semantics: each function body is verified sequentially; lock invariants stand in for other threads",
@@ -595,8 +628,8 @@ func runBounded(w *World, verifDir, prop, tier string, known []finding) ([]map[s
 			}
 			rec["result"] = "violation"
 			rec["what"] = what
-			os.MkdirAll(filepath.Join(verifDir, "evidence", "replay"), 0o755)
-			path := filepath.Join(verifDir, "evidence", "replay", prop+"-bounded-"+b.ID+".json")
+			os.MkdirAll(replayDirOf(verifDir), 0o755)
+			path := filepath.Join(replayDirOf(verifDir), prop+"-bounded-"+b.ID+".json")
 			rj, _ := json.MarshalIndent(map[string]interface{}{"property": prop, "obligation": name, "kind": "bounded stand-in", "bound": b.Bound[tier],
 				"replay": "the failing case was produced by running the real functions (go test -overlay " + b.File + " -run " + b.Test + ")", "what": what, "output": tail(o, 8000)}, "", " ")
 			os.WriteFile(path, rj, 0o644)
@@ -615,9 +648,74 @@ func runBounded(w *World, verifDir, prop, tier string, known []finding) ([]map[s
 	return out, exit
 }
 
+// replayDirOf: where replay records go; a child run on a mutated copy (LBVC_REPLAY_DIR) keeps its records apart.
+func replayDirOf(verifDir string) string {
+	if d := os.Getenv("LBVC_REPLAY_DIR"); d != "" {
+		return d
+	}
+	return filepath.Join(verifDir, "evidence", "replay")
+}
+
+// mustFailCorpus (thorough tier): every own mutant and every seeded change of the property is applied to a scratch
+// copy of the repository and must make this check report a VIOLATION. The result is evidence about the check's
+// strength; it does not affect the exit status (the unchanged tree is what is being judged).
+func mustFailCorpus(verifDir, prop string) map[string]interface{} {
+	var patches []string
+	m1, _ := filepath.Glob(filepath.Join(verifDir, "selftest", "mutants", prop+"-*.patch"))
+	m2, _ := filepath.Glob(filepath.Join(verifDir, "seeded", prop+"-*", "patch.diff"))
+	patches = append(append(patches, m1...), m2...)
+	if len(patches) == 0 {
+		return nil
+	}
+	type res struct {
+		name   string
+		caught bool
+		note   string
+	}
+	out := make([]res, len(patches))
+	sem := make(chan struct{}, 4)
+	var wg sync.WaitGroup
+	for i, p := range patches {
+		wg.Add(1)
+		go func(i int, p string) {
+			defer wg.Done()
+			sem <- struct{}{}
+			defer func() { <-sem }()
+			name := strings.TrimSuffix(filepath.Base(p), ".patch")
+			if name == "patch.diff" {
+				name = filepath.Base(filepath.Dir(p))
+			}
+			tmp, _ := os.MkdirTemp("", "lbvc-child-replay-")
+			defer os.RemoveAll(tmp)
+			cmd := exec.Command(filepath.Join(verifDir, "tools", "runmutant.sh"), p, prop)
+			cmd.Env = append(os.Environ(), "LBVC_REPLAY_DIR="+tmp)
+			b, _ := cmd.CombinedOutput()
+			o := string(b)
+			out[i] = res{name: name, caught: strings.Contains(o, "VIOLATION property="+prop)}
+			if !out[i].caught {
+				out[i].note = tail(o, 300)
+			}
+		}(i, p)
+	}
+	wg.Wait()
+	caught := 0
+	var missed []string
+	for _, r := range out {
+		if r.caught {
+			caught++
+		} else {
+			missed = append(missed, r.name)
+			fmt.Printf("WEAK-CHECK: property=%s the change %s is not caught by this check\n", prop, r.name)
+		}
+	}
+	fmt.Printf("must-fail corpus: %d of %d property-breaking changes caught\n", caught, len(out))
+	return map[string]interface{}{"total": len(out), "caught": caught, "missed": missed,
+		"what": "own mutants (selftest/mutants) and independently seeded changes (seeded/) applied one at a time to a scratch copy; caught = this check reports a VIOLATION"}
+}
+
 func writeReplay(verifDir, prop string, o *Obligation) string {
 	name := strings.NewReplacer("/", "_", "(", "", ")", "", "*", "", "#", "-", "@", "-", "$", "-").Replace(o.Name)
-	path := filepath.Join(verifDir, "evidence", "replay", prop+"-"+name+".json")
+	path := filepath.Join(replayDirOf(verifDir), prop+"-"+name+".json")
 	q, _ := os.ReadFile(o.Query)
 	out := o.Model
 	if len(out) > 20000 {
